@@ -40,6 +40,7 @@ class AFrame(Stub):
 
     def __init__(self, origin: str, cols, ops: Tuple[str, ...] = ()):
         self.origin, self.cols, self.ops = origin, set(cols), tuple(ops)
+        self.stage: Dict[str, Any] = {}
 
     @property
     def columns(self):
@@ -63,6 +64,11 @@ class AFrame(Stub):
                 raise InterpRaised("KeyError", repr(miss))
             return AFrame(self.origin, k, self.ops + (f"select{sorted(k)}",))
         raise Unsupported("frame[...] with " + type(k).__name__)
+
+    def resample(self, rule=None, *a, **k):
+        if a or k or rule is None:
+            raise Unsupported("resample() with extra arguments")
+        return AFrameRes(self, rule)
 
     def __getattr__(self, name):
         # row-changing / value-changing operations are recorded, not modelled
@@ -91,6 +97,25 @@ class AIndexTok(Stub):
         return Opaque(f"index.{name}")
 
 
+class AFrameRes(Stub):
+    """frame.resample(rule): selecting a column gives that column's resampler."""
+
+    def __init__(self, frame: AFrame, rule):
+        self.frame, self.rule = frame, rule
+
+    def __getitem__(self, k):
+        if isinstance(k, str):
+            return ARes(self.frame[k], self.rule)
+        raise Unsupported("frame.resample(...)[...] with something other than one column name")
+
+    def __getattr__(self, name):
+        if name.startswith("_"):
+            raise AttributeError(name)
+        if name in self.frame.cols:
+            return ARes(self.frame[name], self.rule)
+        raise Unsupported(f"frame.resample(...).{name}: whole-frame reductions are not modelled")
+
+
 class ACol(Stub):
     def __init__(self, frame: AFrame, col: str):
         self.frame, self.col = frame, col
@@ -104,11 +129,25 @@ class ACol(Stub):
         return self
 
 
+# reductions r with r(r(parts)) == r(whole) when the coarse periods are unions of the fine ones (calendar months -> month pairs)
+_COMPOSABLE = {"sum(x)", "first(x)", "max(x)", "min(x)", "sqrt(sum(sq(x)))"}
+_NESTED_RULES = {("MS", "2MS"), ("MS", "MS"), ("2MS", "2MS")}
+
+
 class ARes(Stub):
     def __init__(self, col: ACol, rule):
         self.col, self.rule = col, rule
 
     def _agg(self, kind: str):
+        first = getattr(self.col.frame, "stage", {}).get(self.col.col)
+        if first is not None:
+            # second aggregation stage over a table of aggregates: exact for the composable reductions on nested periods, otherwise
+            # it stays what it is - a reduction of period values, not of the daily rows (a mean of monthly means is not the mean)
+            if first.kind == kind and kind in _COMPOSABLE and (str(first.rule), str(self.rule)) in _NESTED_RULES and not self.col.frame.ops:
+                r = AAgg(first.col, self.rule, kind)
+                r.name = getattr(first, "name", first.col.col)
+                return r
+            return AAgg(self.col, self.rule, f"{kind} of per-{first.rule} {first.kind}")
         return AAgg(self.col, self.rule, kind)
 
     def sum(self, *a, **k):
@@ -163,8 +202,28 @@ class AConcat(Stub):
     def __init__(self, items, axis, ops: Tuple[str, ...] = ()):
         self.items, self.axis, self.ops = items, axis, tuple(ops)
 
+    def _as_frame(self) -> AFrame:
+        """The aggregated table used as a frame again (a second aggregation stage): its origin says what it was made from."""
+        if self.axis not in (1, "columns") or not all(isinstance(x, AAgg) for x in self.items):
+            raise Unsupported("a concatenation that is not a column-wise table of aggregates, used as a frame")
+        rules = sorted({str(x.rule) for x in self.items})
+        srcs = sorted({x.col.frame.origin for x in self.items})
+        fr = AFrame(f"aggregate[{','.join(rules)}] of {','.join(srcs)}", [getattr(x, "name", x.col.col) for x in self.items], self.ops)
+        fr.stage = {getattr(x, "name", x.col.col): x for x in self.items}
+        return fr
+
+    @property
+    def columns(self):
+        return self._as_frame().columns
+
+    def __getitem__(self, k):
+        return self._as_frame()[k]
+
+    def resample(self, rule=None, *a, **k):
+        return self._as_frame().resample(rule, *a, **k)
+
     def __getattr__(self, name):
-        if name.startswith("_") or name in ("loc", "iloc", "values", "T", "shape", "empty", "columns", "index"):
+        if name.startswith("_") or name in ("loc", "iloc", "values", "T", "shape", "empty", "index"):
             raise AttributeError(name)
 
         def op(*a, **k):
